@@ -35,6 +35,7 @@ pub type YieldFn = std::sync::Arc<dyn Fn(&'static str) + Send + Sync>;
 
 thread_local! {
     static YIELD: RefCell<Option<YieldFn>> = const { RefCell::new(None) };
+    static YIELD_IN_CRITICAL_SECTIONS: Cell<bool> = const { Cell::new(false) };
     static SPAWNED: RefCell<Option<Vec<Spawned>>> = const { RefCell::new(None) };
     static CLOCK_OFFSET: Cell<Duration> = const { Cell::new(Duration::ZERO) };
     static CLOCK_FROZEN: Cell<Option<Instant>> = const { Cell::new(None) };
@@ -152,6 +153,13 @@ pub fn set_yield_fn(f: Option<YieldFn>) {
     YIELD.with(|y| *y.borrow_mut() = f);
 }
 
+/// On this thread, also park right after the pool mutex has been taken (site "pool mutex held"), so
+/// that another thread can observe the mutex as held (`try_lock` fails there; a blocking acquisition
+/// parks again at "pool mutex busy" instead of blocking the thread). Off by default.
+pub fn set_yield_in_critical_sections(on: bool) {
+    YIELD_IN_CRITICAL_SECTIONS.with(|c| c.set(on));
+}
+
 /// Interleaving seam: called by pool code just before it touches state shared with other
 /// tasks (the pool lock, a waiter channel). Does nothing unless a harness installed a callback
 /// on this thread; the callback may park the thread while another thread runs.
@@ -176,8 +184,20 @@ unsafe impl parking_lot::lock_api::RawMutex for YieldRawMutex {
     type GuardMarker = <parking_lot::RawMutex as parking_lot::lock_api::RawMutex>::GuardMarker;
 
     fn lock(&self) {
-        yield_point("pool mutex");
-        parking_lot::lock_api::RawMutex::lock(&self.0)
+        if !YIELD_IN_CRITICAL_SECTIONS.with(|c| c.get()) {
+            yield_point("pool mutex");
+            return parking_lot::lock_api::RawMutex::lock(&self.0);
+        }
+        // never block the thread: the holder may be parked by the harness
+        let mut site = "pool mutex";
+        loop {
+            yield_point(site);
+            if parking_lot::lock_api::RawMutex::try_lock(&self.0) {
+                yield_point("pool mutex held");
+                return;
+            }
+            site = "pool mutex busy";
+        }
     }
 
     fn try_lock(&self) -> bool {
